@@ -32,6 +32,14 @@ static FILE* devnull;
 static const char* const load_inputs[] = {"8301820203f6", "bf6161c1f5ff", "5f4101420203ff", "d8184401020304", "9f7f6161ffa10102ff"};
 #define NLOADS 5
 
+/* index codes >= 200 stand for indices far beyond any real array: base[(c-200)/4] + (c-200)%4, so that the low bits
+ * (and the index modulo 2^32, 2^61, ...) fall on existing members of small arrays */
+static size_t huge_index(unsigned code) {
+  static const size_t base[14] = {(size_t)1 << 31, (size_t)1 << 32, (size_t)1 << 33, (size_t)3 << 32, (size_t)1 << 40, (size_t)1 << 48, (size_t)1 << 61, (size_t)1 << 62, (size_t)3 << 61,
+                                 (size_t)1 << 63, ((size_t)1 << 63) + ((size_t)1 << 32), (size_t)7 << 61, (size_t)0 - 4, ((size_t)1 << 16) << 16};
+  unsigned k = code - 200;
+  return base[(k / 4) % 14] + (k % 4);
+}
 static bool is_array(int k) { return k == K_DARR || k == K_IARR; }
 static bool is_map(int k) { return k == K_DMAP || k == K_IMAP; }
 
@@ -143,6 +151,7 @@ static int m_apply(struct mstate* m, struct op o, bool allow_oob) {
       int x = o.c < NSLOT ? m->slot[o.c] : -1;
       if (a < 0 || x < 0 || !is_array(m->n[a].kind) || m_reaches(m, x, a)) return -1;
       int i = o.b;
+      if (i >= 200) return allow_oob ? 0 : -1; /* far out of range: must be refused */
       if (i > m->n[a].nmem + (allow_oob ? 2 : 0)) return -1;
       if (i < m->n[a].nmem) { m->n[a].mem[i] = (int8_t)x; m_reap(m); return 1; }
       if (o.code == OP_REPLACE) return allow_oob ? 0 : -1;
@@ -158,6 +167,7 @@ static int m_apply(struct mstate* m, struct op o, bool allow_oob) {
     case OP_GET: {
       if (a < 0 || !is_array(m->n[a].kind) || o.c >= NSLOT || m->slot[o.c] >= 0) return -1;
       int i = o.b;
+      if (i >= 200) return allow_oob ? 0 : -1;
       if (i >= m->n[a].nmem) return (allow_oob && i <= m->n[a].nmem + 2) ? 0 : -1;
       m->slot[o.c] = m->n[a].mem[i]; m->hold[o.c] = 1;
       return 1;
@@ -319,10 +329,11 @@ static int r_apply(const struct mstate* pre, const struct mstate* post, struct o
       res = LIB(cbor_array_push(rslot[o.a], cbor_move(rslot[o.b]))); LIBEND();
       if (post->slot[o.b] < 0) rslot[o.b] = NULL;
       return res;
-    case OP_SET: res = LIB(cbor_array_set(rslot[o.a], o.b, rslot[o.c])); LIBEND(); return res;
-    case OP_REPLACE: res = LIB(cbor_array_replace(rslot[o.a], o.b, rslot[o.c])); LIBEND(); return res;
+    case OP_SET: res = LIB(cbor_array_set(rslot[o.a], o.b >= 200 ? huge_index(o.b) : o.b, rslot[o.c])); LIBEND(); return res;
+    case OP_REPLACE: res = LIB(cbor_array_replace(rslot[o.a], o.b >= 200 ? huge_index(o.b) : o.b, rslot[o.c])); LIBEND(); return res;
     case OP_GET: {
-      cbor_item_t* g = LIB(cbor_array_get(rslot[o.a], o.b)); LIBEND();
+      cbor_item_t* g = LIB(cbor_array_get(rslot[o.a], o.b >= 200 ? huge_index(o.b) : o.b)); LIBEND();
+      if (expect == 0 && g != NULL) { cbor_item_t* tmp = g; (void)tmp; } /* reported below as result-differs-from-model */
       if (expect == 1) {
         if (g != ritem[post->slot[o.c]]) { vh_violation("get-wrong-item", "cbor_array_get(index %d) returned %p, the model's member is %p", o.b, (void*)g, (void*)ritem[post->slot[o.c]]); return -2; }
         rslot[o.c] = g;
@@ -410,8 +421,8 @@ static void render_history(const struct op* ops, int n, struct vh_buf* out) {
       case OP_NEW: vb_printf(out, "s%d=new(%s%s%.0d)", o.a, kind_names[o.b < K_NKINDS ? o.b : 0], (o.b == K_DARR || o.b == K_DMAP) ? " cap " : "", (o.b == K_DARR || o.b == K_DMAP) ? o.c : 0); if ((o.b == K_DARR || o.b == K_DMAP) && o.c == 0) vb_printf(out, "0"); break;
       case OP_INCREF: case OP_DECREF: case OP_IDECREF: case OP_SERIALIZE: case OP_DESCRIBE: case OP_REHANDLE: vb_printf(out, "%s(s%d)", op_names[o.code], o.a); break;
       case OP_PUSH: case OP_MOVEPUSH: case OP_ADDCHUNK: vb_printf(out, "%s(s%d, s%d)", op_names[o.code], o.a, o.b); break;
-      case OP_SET: case OP_REPLACE: vb_printf(out, "%s(s%d, %d, s%d)", op_names[o.code], o.a, o.b, o.c); break;
-      case OP_GET: vb_printf(out, "s%d=get(s%d, %d)", o.c, o.a, o.b); break;
+      case OP_SET: case OP_REPLACE: if (o.b >= 200) vb_printf(out, "%s(s%d, %zu, s%d)", op_names[o.code], o.a, huge_index(o.b), o.c); else vb_printf(out, "%s(s%d, %d, s%d)", op_names[o.code], o.a, o.b, o.c); break;
+      case OP_GET: if (o.b >= 200) vb_printf(out, "s%d=get(s%d, %zu)", o.c, o.a, huge_index(o.b)); else vb_printf(out, "s%d=get(s%d, %d)", o.c, o.a, o.b); break;
       case OP_MAPADD: vb_printf(out, "map_add(s%d, s%d:s%d)", o.a, o.b, o.c); break;
       case OP_TAGSET: vb_printf(out, "tag_set_item(s%d, s%d)[old->s%d]", o.a, o.b, o.c); break;
       case OP_TAGITEM: vb_printf(out, "s%d=tag_item(s%d)", o.b, o.a); break;
@@ -693,9 +704,9 @@ static void random_history(uint64_t u, int maxlen, bool allow_oob) {
     o.a = (uint8_t)vh_below(&r, NSLOT); o.b = (uint8_t)vh_below(&r, NSLOT); o.c = (uint8_t)vh_below(&r, NSLOT);
     if (pick < 18) { o.code = OP_NEW; o.b = kinds[vh_below(&r, sizeof kinds)]; o.c = (uint8_t)vh_below(&r, 4); }
     else if (pick < 34) o.code = vh_below(&r, 2) ? OP_PUSH : OP_MOVEPUSH; /* biased towards sharing one child among several containers */
-    else if (pick < 42) { o.code = OP_SET; o.b = (uint8_t)vh_below(&r, 5); }
-    else if (pick < 48) { o.code = OP_REPLACE; o.b = (uint8_t)vh_below(&r, 4); }
-    else if (pick < 54) { o.code = OP_GET; o.b = (uint8_t)vh_below(&r, 4); }
+    else if (pick < 42) { o.code = OP_SET; o.b = (uint8_t)vh_below(&r, 5); if (allow_oob && vh_below(&r, 6) == 0) o.b = (uint8_t)(200 + vh_below(&r, 56)); }
+    else if (pick < 48) { o.code = OP_REPLACE; o.b = (uint8_t)vh_below(&r, 4); if (allow_oob && vh_below(&r, 6) == 0) o.b = (uint8_t)(200 + vh_below(&r, 56)); }
+    else if (pick < 54) { o.code = OP_GET; o.b = (uint8_t)vh_below(&r, 4); if (allow_oob && vh_below(&r, 6) == 0) o.b = (uint8_t)(200 + vh_below(&r, 56)); }
     else if (pick < 62) o.code = OP_MAPADD;
     else if (pick < 67) o.code = OP_ADDCHUNK;
     else if (pick < 72) o.code = OP_TAGSET;
@@ -917,6 +928,37 @@ static void hist_run(void) {
       dfs(&m, prefix, 0, maxlen);
       vh_count_dyn("dfs.histories", g_dfs_histories);
       vh_note("dfs", "every precondition-respecting history of length <= %d over %d slots (new of %zu kinds, load, incref, decref, intermediate_decref, serialize, copy, build_tag, push, push(move), set, replace, map_add, add_chunk, tag_set_item, tag_item, get), each re-executed from scratch and ended by dropping all client references", maxlen, g_dfs_slots, sizeof dfs_kinds);
+    } else if (P == 4 && !strcmp(st, "wide")) {
+      /* reference counts beyond 32 bits: the count of an item is put near 2^32 (and 2^48, 2^63) through the public struct,
+       * as if that many references were held, then references are taken and released across the boundary */
+      static const size_t starts[] = {((size_t)1 << 32) - 2, ((size_t)1 << 32) - 1, ((size_t)1 << 32), ((size_t)1 << 31) - 1, ((size_t)1 << 16) - 1, ((size_t)1 << 48) - 1, ((size_t)1 << 63) - 1, 254, 255, 65535};
+      int unit = 0;
+      for (int kind = 0; kind < K_NKINDS; kind++)
+        for (size_t si = 0; si < sizeof starts / sizeof starts[0]; si++, unit++) {
+          if (unit % O.nshards != O.shard) continue;
+          uint8_t desc[10] = {'W', (uint8_t)kind};
+          for (int i = 0; i < 8; i++) desc[2 + i] = (uint8_t)(starts[si] >> (56 - 8 * i));
+          if (!vh_case(desc, 10)) continue;
+          cbor_item_t* it = r_new(kind, 2);
+          cbor_item_t* arr = r_new(K_IARR, 0);
+          if (!it || !arr) vh_die("wide: allocation failed");
+          it->refcount = starts[si];
+          size_t expect = starts[si];
+          for (int k = 0; k < 3; k++) { cbor_incref(it); expect++; if (cbor_refcount(it) != expect) { vh_violation("refcount-differs-from-rules", "an item (%s) with %zu references: after one more cbor_incref cbor_refcount reports %zu, expected %zu", kind_names[kind], expect - 1, cbor_refcount(it), expect); break; } }
+          for (int k = 0; k < 2; k++) { if (!cbor_array_push(arr, it)) break; expect++; }
+          if (cbor_refcount(it) != expect) vh_violation("refcount-differs-from-rules", "an item (%s) referenced %zu times reports %zu", kind_names[kind], expect, cbor_refcount(it));
+          /* release the references taken above; the item must stay alive (ASan flags any touch of a freed block) */
+          cbor_decref(&arr);
+          expect -= 2;
+          for (int k = 0; k < 3 && it; k++) { cbor_item_t* t = it; cbor_decref(&t); expect--; if (!t) { vh_violation("released-while-referenced", "an item (%s) was released although %zu references remain", kind_names[kind], expect); it = NULL; } }
+          if (it) {
+            if (cbor_refcount(it) != expect) vh_violation("refcount-differs-from-rules", "after releasing, cbor_refcount reports %zu, expected %zu", cbor_refcount(it), expect);
+            it->refcount = 1;
+            cbor_decref(&it);
+          }
+          if (ta_live_count()) { if (it == NULL) ta_forget_all(); else { vh_violation("leak", "%zu block(s) left", ta_live_count()); ta_forget_all(); } }
+          vh_nontrivial(vh_hash(desc, 10));
+        }
     } else {
       uint64_t nh = O.budget ? O.budget : (O.thorough ? 500000 : 20000);
       for (uint64_t u = 0; u < nh; u++) if ((int)(u % (uint64_t)O.nshards) == O.shard) random_history(u, 60, false);
@@ -936,6 +978,24 @@ static void hist_run(void) {
     } else if (!strcmp(st, "random")) {
       uint64_t nh = O.budget ? O.budget : (O.thorough ? 300000 : 30000);
       for (uint64_t u = 0; u < nh; u++) if ((int)(u % (uint64_t)O.nshards) == O.shard) random_history(u, 40, true);
+    } else if (!strcmp(st, "hugeidx")) {
+      /* every far-out-of-range index code x {get, set, replace} on arrays of each flavour and fill level */
+      int unit = 0;
+      for (int kind = K_DARR; kind <= K_IARR; kind++)
+        for (int fill = 0; fill <= 5; fill++)
+          for (int code = 200; code < 256; code++)
+            for (int which = 0; which < 3; which++, unit++) {
+              if (unit % O.nshards != O.shard) continue;
+              struct op ops[16];
+              int n = 0;
+              ops[n++] = (struct op){OP_NEW, 0, (uint8_t)kind, (uint8_t)(fill + 1)};
+              ops[n++] = (struct op){OP_NEW, 1, K_INT, 0};
+              ops[n++] = (struct op){OP_NEW, 2, K_FLOAT, 0};
+              for (int f = 0; f < fill; f++) ops[n++] = (struct op){OP_PUSH, 0, (uint8_t)(1 + (f & 1)), 0};
+              ops[n++] = which == 0 ? (struct op){OP_GET, 0, (uint8_t)code, 3} : which == 1 ? (struct op){OP_SET, 0, (uint8_t)code, 2} : (struct op){OP_REPLACE, 0, (uint8_t)code, 2};
+              ops[n++] = (struct op){OP_SERIALIZE, 0, 0, 0};
+              history_case(ops, n, true);
+            }
     } else if (!strcmp(st, "growth")) {
       static const int kinds[] = {K_IARR, K_IMAP, K_IBS, K_ITS};
       size_t top = O.thorough ? 65536 : 4096;
